@@ -147,6 +147,30 @@ static void RunOne(const string& mode, const string& in) {
     DependencyScan scan(&st, nullptr, nullptr, &disk, &dopts, nullptr);
     string err;
     scan.RecomputeDirty(st.LookupNode("a"), nullptr, &err);
+  } else if (mode == "readfile") {
+    // the real reader on special files: it must return (content or error), never spin
+    bool viainc = in.compare(0, 4, "inc:") == 0;
+    string kind = viainc ? in.substr(4) : in;
+    string p = g_tmp + "/rf";
+    unlink(p.c_str()); rmdir(p.c_str());
+    if (kind.compare(0, 3, "dir") == 0) mkdir(p.c_str(), 0700);
+    else if (kind.compare(0, 5, "empty") == 0) { FILE* f = fopen(p.c_str(), "wb"); fclose(f); }
+    else if (kind.compare(0, 5, "small") == 0) { FILE* f = fopen(p.c_str(), "wb"); fputs("x = 1\n", f); fclose(f); }
+    else if (kind.compare(0, 3, "blk") == 0) { FILE* f = fopen(p.c_str(), "wb"); string big(65536, '#'); big += "\nx = 1\n"; fwrite(big.data(), 1, big.size(), f); fclose(f); }
+    RealDiskInterface rd;
+    if (!viainc) {
+      string c, err;
+      rd.ReadFile(p, &c, &err);
+    } else {
+      string m = g_tmp + "/rf.ninja";
+      FILE* f = fopen(m.c_str(), "wb");
+      fprintf(f, "include %s\nsubninja %s\n", p.c_str(), p.c_str());
+      fclose(f);
+      State st;
+      ManifestParser parser(&st, &rd);
+      string err;
+      parser.Load(m, &err);
+    }
   } else if (mode == "cl") {
     CLParser p;
     string out, err;
